@@ -66,21 +66,24 @@ Print Assumptions C07_own_frames_are_acks.
 (* 6. acknowledging does not wait for application traffic: in ANY state in which the queue is not
       empty and the write loop is at one of its two selects, taking the acknowledgement is enabled —
       whatever the await map, the callers (queued or not) and the connection phase (negotiation
-      included) are; they are left untouched — and the next write-loop step puts it on the wire *)
+      included) are; they are left untouched — and the next write-loop step puts it on the wire. The acknowledgement
+      carries the version that is current when the write loop TAKES it (reader.go stamps msg.version right after the
+      select, before it blocks in Write): one taken while negotiation was still running keeps that version even if
+      the negotiated version has changed by the time the peer reads it (found by the model-based walks, round 5) *)
 Theorem C07_ack_not_blocked : forall cfg s i q,
   writer s = WTop \/ writer s = WInner -> ackq s = i :: q ->
-  writer (step cfg s WTakeAck) = WHolding (ack_frame i) /\ ackq (step cfg s WTakeAck) = q /\
+  writer (step cfg s WTakeAck) = WHolding (stamp_o cfg (version s) (ack_frame i)) /\ ackq (step cfg s WTakeAck) = q /\
   awaiting (step cfg s WTakeAck) = awaiting s /\ callers (step cfg s WTakeAck) = callers s /\
   phase (step cfg s WTakeAck) = phase s.
 Proof. exact ack_not_blocked. Qed.
 Print Assumptions C07_ack_not_blocked.
 
-Theorem C07_ack_written_next : forall cfg s i,
-  writer s = WHolding (ack_frame i) ->
-  out (step cfg s WWriteHdr) = out s ++ [stamp_o cfg (version s) (ack_frame i)] /\
+Theorem C07_ack_written_next : forall cfg s v i,
+  writer s = WHolding (stamp_o cfg v (ack_frame i)) ->
+  out (step cfg s WWriteHdr) = out s ++ [stamp_o cfg v (ack_frame i)] /\
   writer (step cfg s WWriteHdr) = WTop /\
-  f_id (o_frame (stamp_o cfg (version s) (ack_frame i))) = i /\
-  f_typ (o_frame (stamp_o cfg (version s) (ack_frame i))) = T_KeepAliveAck.
+  f_id (o_frame (stamp_o cfg v (ack_frame i))) = i /\
+  f_typ (o_frame (stamp_o cfg v (ack_frame i))) = T_KeepAliveAck.
 Proof. exact ack_written_next. Qed.
 Print Assumptions C07_ack_written_next.
 
